@@ -26,6 +26,12 @@ ENCODED = [
     "tdgl.finite_volume.util:make_adj_directed_tri_indices",
     "tdgl.finite_volume.edge_mesh:EdgeMesh.from_mesh",
     "tdgl.finite_volume.mesh:Mesh.find_boundary_indices",
+    "tdgl.finite_volume.mesh:Mesh.from_triangulation",
+    "tdgl.finite_volume.mesh:Mesh.compute_voronoi_areas_polygons",
+    "tdgl.finite_volume.util:compute_voronoi_polygon_areas",
+    "tdgl.finite_volume.util:get_convex_polygon_area",
+    "tdgl.finite_volume.util:orient_convex_polygon",
+    "tdgl.finite_volume.util:get_voronoi_polygon_indices",
 ]
 BOUNDS = {
     "quick": dict(patches=["T2", "F5"], coordinates="each site within +-0.1 of its nominal position (orientation preserved)", topology_meshes=["T2", "F5", "F7", "G9", "R8", "device:bar2", "device:holed"]),
@@ -36,12 +42,13 @@ ASSUMPTIONS = [
     "exact real arithmetic",
 ]
 OUTSIDE = [
-    "cell areas = clipped Voronoi regions (compute_voronoi_polygon_areas: qhull ConvexHull and arctan2 ordering are not encodable without a hull model)",
+    "cell areas beyond the similarity family of the L-shaped mesh (qhull ConvexHull and arctan2 ordering are replaced by models whose combinatorial result is fixed at the nominal mesh and proven valid over the family)",
     "the constrained triangulation itself (Triangle, C), exact tiling of the domain, smoothing",
     "terminal-length tolerance (matplotlib Path membership, C++)",
 ]
-MERGE = True
+MERGE = False
 DEFAULT_SLICE = True
+HOP_SLICE = True
 ABSTRACT_DIV = True  # circumcentre coordinates become definitional quotient variables (keeps identities polynomial)
 TV_SAMPLES = {"quick": 2, "thorough": 2}
 
@@ -53,6 +60,16 @@ def patch_spec(case):
 def cases(tier, seed):
     b = BOUNDS[tier]
     out = [Case(f"patch:{p}", kind="patch", mesh=p, seed=seed) for p in b["patches"]]
+    try:
+        if "L" not in _AREA_MESH:
+            _AREA_MESH["L"] = lshape_mesh()
+        out.append(Case("areas:L-shape-with-hole:rot=0", kind="areas", rot=(1, 0), seed=seed))
+        if tier == "thorough":
+            from fractions import Fraction
+
+            out.append(Case("areas:L-shape-with-hole:rot=3-4-5", kind="areas", rot=(Fraction(3, 5), Fraction(4, 5)), seed=seed))
+    except Exception as e:
+        out.append(Case("areas:L-shape-with-hole", kind="broken", mesh="L-shape", seed=seed, error=f"{type(e).__name__}: {e}"[:200]))
     for m in b["topology_meshes"]:
         try:
             meshes.warm([m], seed)
@@ -62,7 +79,231 @@ def cases(tier, seed):
     return out
 
 
+# ---- cell areas under orientation-preserving similarities ---------------------------------------------
+class _Angles:
+    """result of np.arctan2(dy, dx) on symbolic arrays: only ever sorted"""
+
+    def __init__(self, dy, dx):
+        self.dy, self.dx = dy, dx
+
+
+def _nominal_env():
+    from symx import feval
+    from symx.core import CTX
+
+    return feval.Env(CTX, dict(_NOMINAL))
+
+
+_NOMINAL = {}
+
+
+def _f(env, x):
+    return env.eval_sc(x).real if hasattr(x, "re") else float(x)
+
+
+def _cross(ax, ay, bx, by):
+    return ax * by - ay * bx
+
+
+_SEEN_LEMMAS = set()
+
+
+def _lemma(name, cond):
+    import z3
+    from symx.core import CTX
+
+    e = z3.simplify(cond.e) if hasattr(cond, "e") else z3.BoolVal(bool(cond))
+    if z3.is_true(e):
+        return
+    key = (id(CTX.lemmas), e.sexpr())
+    if key in _SEEN_LEMMAS:
+        return
+    _SEEN_LEMMAS.add(key)
+    CTX.lemmas.append((name, e, [], []))
+
+
+def _lemma_all(name, conds):
+    acc = None
+    for c in conds:
+        if isinstance(c, (bool, np.bool_)):
+            if not c:
+                acc = False
+                break
+            continue
+        acc = c if acc is None else (acc & c)
+    if acc is None:
+        return
+    _lemma(name, acc)
+
+
+def make_stubs(H):
+    """models of scipy.spatial.ConvexHull and of argsort(arctan2(...)) whose combinatorial result
+    is computed at the nominal point and whose validity over the whole symbolic family is stated as
+    lemma obligations (a failed lemma is a harness problem, never a verdict)"""
+    import scipy.spatial as sps
+    from symx import arr
+
+    class Hull:
+        def __init__(self, coords):
+            env = _nominal_env()
+            d = np.asarray(arr._d(coords), dtype=object)
+            nom = np.array([[_f(env, d[i, 0]), _f(env, d[i, 1])] for i in range(len(d))])
+            real = sps.ConvexHull(nom)  # may raise QhullError exactly as the real code would
+            self.vertices = np.array(real.vertices)
+            vs = list(self.vertices)
+            k = len(vs)
+            area = 0.0
+            for a in range(k):
+                i, j = vs[a], vs[(a + 1) % k]
+                area = area + _cross(d[i, 0], d[i, 1], d[j, 0], d[j, 1])
+            self.volume = area / 2
+            # validity: hull vertices in strictly convex counter-clockwise position, other points inside
+            conds = []
+            for a in range(k):
+                i, j, l = vs[a], vs[(a + 1) % k], vs[(a + 2) % k]
+                conds.append(_cross(d[j, 0] - d[i, 0], d[j, 1] - d[i, 1], d[l, 0] - d[j, 0], d[l, 1] - d[j, 1]) > 0)
+                for q in range(len(d)):
+                    if q not in vs:
+                        conds.append(_cross(d[j, 0] - d[i, 0], d[j, 1] - d[i, 1], d[q, 0] - d[i, 0], d[q, 1] - d[i, 1]) >= 0)
+            _lemma_all("hull-valid", conds)
+
+    def arctan2(dy, dx):
+        if not arr.has_sym([dy, dx]):
+            return np.arctan2(dy, dx)
+        return _Angles(dy, dx)
+
+    def argsort(a, *args, **kw):
+        if not isinstance(a, _Angles):
+            return np.argsort(a, *args, **kw)
+        env = _nominal_env()
+        dy = [x for x in np.asarray(arr._d(a.dy), dtype=object)]
+        dx = [x for x in np.asarray(arr._d(a.dx), dtype=object)]
+        ang = [np.arctan2(_f(env, y), _f(env, x)) for y, x in zip(dy, dx)]
+        order = list(np.argsort(ang))
+        # validity: the sign pattern of dy and the counter-clockwise order are those of the nominal point
+        conds = []
+        for i in range(len(dy)):
+            ny = _f(env, dy[i])
+            if abs(ny) < 1e-12:
+                conds.append((dy[i] == 0) & ((dx[i] > 0) if _f(env, dx[i]) > 0 else (dx[i] < 0)))
+            else:
+                conds.append((dy[i] > 0) if ny > 0 else (dy[i] < 0))
+        for a_, b_ in zip(order[:-1], order[1:]):
+            conds.append(_cross(dx[a_], dy[a_], dx[b_], dy[b_]) > 0)
+        _lemma_all("angle-order-valid", conds)
+        return np.array(order)
+
+    return Hull, arctan2, argsort
+
+
+def lshape_mesh():
+    """a real mesh (Triangle) of an L-shaped film with a box hole: re-entrant film corner, hole
+    corners, straight boundaries and interior sites"""
+    import tdgl
+
+    layer = tdgl.Layer(coherence_length=1.0, london_lambda=2.0, thickness=0.1)
+    film = tdgl.Polygon("film", points=np.array([[0, 0], [4, 0], [4, 2], [2, 2], [2, 4], [0, 4]], float))
+    hole = tdgl.Polygon("hole", points=np.array([[0.75, 0.75], [1.5, 0.75], [1.5, 1.5], [0.75, 1.5]], float))
+    dev = tdgl.Device("L", layer=layer, film=film, holes=[hole])
+    dev.make_mesh(max_edge_length=1.6, min_points=None)
+    return dev.mesh
+
+
+_AREA_MESH = {}
+
+
+def body_areas(H, case):
+    from fractions import Fraction
+
+    from symx import arr
+    from tdgl.finite_volume.mesh import Mesh
+
+    mesh0 = _AREA_MESH["L"]
+    pts, tris = np.asarray(mesh0.sites), np.asarray(mesh0.elements)
+    n = len(pts)
+    c, sn = case.rot
+    s = H.real("scale", lo=0.5, hi=2.0)
+    tx, ty = H.real("tx", lo=-3.0, hi=3.0), H.real("ty", lo=-3.0, hi=3.0)
+    _NOMINAL.clear()
+    _NOMINAL.update({"scale": 1.0, "tx": 0.0, "ty": 0.0})
+    if H.mode == "sym":
+        rows = [[s * (Fraction(c) * Fraction(float(px)) - Fraction(sn) * Fraction(float(py))) + tx,
+                 s * (Fraction(sn) * Fraction(float(px)) + Fraction(c) * Fraction(float(py))) + ty] for px, py in pts]
+    else:
+        rows = [[s * (float(c) * px - float(sn) * py) + tx, s * (float(sn) * px + float(c) * py) + ty] for px, py in pts]
+    sites = H.array2(rows)
+    import tdgl.finite_volume.util as U
+
+    if H.mode == "sym":
+        Hull, at2, asort = make_stubs(H)
+        saved = (U.ConvexHull, U.np._extra.get("arctan2"), U.np._extra.get("argsort"))
+        U.ConvexHull = Hull
+        U.np._extra["arctan2"], U.np._extra["argsort"] = at2, asort
+    try:
+        m = Mesh.from_triangulation(sites, tris)
+    finally:
+        if H.mode == "sym":
+            U.ConvexHull = saved[0]
+            U.np._extra.pop("arctan2", None)
+            U.np._extra.pop("argsort", None)
+    areas = K.elems(m.areas)
+    cc = m.dual_sites
+    # ---- oracle: clipped Voronoi region = sum over incident triangles of the kite (site, midpoint, circumcentre, midpoint)
+    nom_cc = np.asarray(mesh0.dual_sites)
+    good = precondition_sites(pts, tris, nom_cc)
+    H.prove("some boundary, re-entrant and interior sites meet the Delaunay / unencroached precondition", len(good) >= 6)
+    for i in sorted(good):
+        tot = 0.0
+        px, py = K.at(sites, i, 0), K.at(sites, i, 1)
+        for t, tri in enumerate(tris):
+            tri = [int(v) for v in tri]
+            if i not in tri:
+                continue
+            k = tri.index(i)
+            a, b = tri[(k + 1) % 3], tri[(k + 2) % 3]  # (i, a, b) counter-clockwise
+            max_, may_ = (px + K.at(sites, a, 0)) / 2, (py + K.at(sites, a, 1)) / 2
+            mbx, mby = (px + K.at(sites, b, 0)) / 2, (py + K.at(sites, b, 1)) / 2
+            cx, cy = K.at(cc, t, 0), K.at(cc, t, 1)
+            tot = tot + (_cross(max_ - px, may_ - py, cx - px, cy - py) + _cross(cx - px, cy - py, mbx - px, mby - py)) / 2
+        H.prove_eq(f"cell area of site {i} = area of its Voronoi region clipped to the domain", areas[i], tot, timeout=120)
+
+
+def precondition_sites(pts, tris, cc):
+    """sites all of whose incident triangles are locally Delaunay with unencroached boundary edges
+    (circumcentre on the inner side of every boundary edge), evaluated on the nominal mesh"""
+    from collections import defaultdict
+
+    edge_tris = defaultdict(list)
+    for t, tri in enumerate(tris):
+        for a, b in ((tri[0], tri[1]), (tri[1], tri[2]), (tri[2], tri[0])):
+            edge_tris[(min(int(a), int(b)), max(int(a), int(b)))].append(t)
+    bad = set()
+    for (a, b), ts in edge_tris.items():
+        pa, pb = pts[a], pts[b]
+        if len(ts) == 1:
+            t = ts[0]
+            third = [int(v) for v in tris[t] if int(v) not in (a, b)][0]
+            side_third = _cross(pb[0] - pa[0], pb[1] - pa[1], pts[third][0] - pa[0], pts[third][1] - pa[1])
+            side_cc = _cross(pb[0] - pa[0], pb[1] - pa[1], cc[t][0] - pa[0], cc[t][1] - pa[1])
+            if side_cc * side_third < -1e-12:
+                bad |= {int(v) for v in tris[t]}
+        else:
+            t1, t2 = ts
+            o1 = [int(v) for v in tris[t1] if int(v) not in (a, b)][0]
+            o2 = [int(v) for v in tris[t2] if int(v) not in (a, b)][0]
+
+            def ang(o):
+                u, v = pts[a] - pts[o], pts[b] - pts[o]
+                return np.arccos(np.clip(np.dot(u, v) / (np.linalg.norm(u) * np.linalg.norm(v)), -1, 1))
+
+            if ang(o1) + ang(o2) > np.pi + 1e-9:
+                bad |= {a, b, o1, o2}
+    return set(range(len(pts))) - bad
+
+
 def body(H, case):
+    if case.kind == "areas":
+        return body_areas(H, case)
     if case.kind == "broken":
         raise engine.HarnessError(f"the real Mesh.from_triangulation fails on {case.mesh}: {case.error}")
     return body_patch(H, case) if case.kind == "patch" else body_topology(H, case)
